@@ -41,8 +41,9 @@ Print Assumptions C17_nesting_kept_plain.
      (vi / wi the readings at its entry / exit hook, differences per field mod 2^64, events stamped
      with the ENTRY / EXIT time), a call that is not recorded contributes nothing.
    Guard [all_xtimed]: time stamps below 2^64, and a call with a read= trigger takes at least one clock
-   tick (see C17_zero_duration_refuted).  No watch points; argument capture is not part of the stream
-   model (with the repaired guard every event fits next to a small argument area, see C17_event_area_disjoint). *)
+   tick (see C17_zero_duration_refuted), and the argument data captured for a call (any -A specification; its
+   size is an input of the entry hook) is at most 684 bytes, i.e. leaves room for all ten events a frame can
+   get (exact: C17_asz_bound_exact; beyond it C17_read_without_diff_refuted).  No watch points. *)
 Theorem C17_read_diff : forall thr gd ms sh rd pm f,
   all_xtimed thr gd ms sh rd pm f -> heights (map strip f) <= ms ->
   xout (snd (xexec (xplain thr gd ms sh rd pm) (flat_map xflat f) xstart)) =
@@ -214,6 +215,51 @@ Proof. exact invalidate_legacy_keeps_own. Qed.
 Print Assumptions C17_watch_dropped_with_call_legacy_refuted.
 
 (* ------------------------------------------------------------------ events and arguments in one frame buffer *)
+(* Machine level, for EVERY configuration, history and observation sequence, argument data of any size
+   save_argument can store (<= ARGBUF_SIZE - 4): in every reachable state, for every open frame, the argument
+   bytes [0, 4 + size) and the bytes of the stored events [ARGBUF_SIZE - used, ARGBUF_SIZE) do not overlap. *)
+Theorem C17_frames_disjoint : forall C es, Forall aok es -> xok (snd (xexec C es xstart)).
+Proof. exact frames_disjoint_run. Qed.
+Print Assumptions C17_frames_disjoint.
+
+(* Whatever the two passes of a call store - also when the arguments leave room for only some events - the
+   entry pass stores read events only, and every event of the exit pass is DIFF_k = exit reading - entry
+   reading of a kind k whose read event is there (never an absolute reading at the exit) *)
+Theorem C17_stored_diffs_are_differences : forall C a ks t0 t1 o0 o1,
+  exists D, str_go_g C a ks o1 t1 true (str_go_g C a ks o0 t0 false []) = str_go_g C a ks o0 t0 false [] ++ D /\
+            Forall (is_diff_of t1 o0 o1) D /\
+            Forall (fun e => exists k, e = mkread t0 o0 k) (str_go_g C a ks o0 t0 false []).
+Proof. exact stored_diffs_are_differences. Qed.
+Print Assumptions C17_stored_diffs_are_differences.
+
+(* FALSE without room (known finding events-refused-when-args-fill-buffer): 1000 bytes of arguments - no event;
+   920 bytes - two read events, no diff event; the bound 684 of C17_read_diff is exact *)
+Theorem C17_read_diff_no_room_refuted :
+  ids (xout (snd (xexec big_cfg [XEnter 0 100 (o_pfa 9 (Some 1000)); XLeave 200 (o_pfa 12 None)] xstart))) =
+  [(0, 100); (0, 200)].
+Proof. exact read_diff_no_room_refuted. Qed.
+Print Assumptions C17_read_diff_no_room_refuted.
+
+Theorem C17_read_without_diff_refuted :
+  ids (xout (snd (xexec big_cfg [XEnter 0 100 (o_pfa 9 (Some 920)); XLeave 200 (o_pfa 12 None)] xstart))) =
+  [(0, 100); (EVENT_ID_READ_PROC_STATM, 100); (EVENT_ID_READ_PAGE_FAULT, 100); (0, 200)].
+Proof. exact read_without_diff_refuted. Qed.
+Print Assumptions C17_read_without_diff_refuted.
+
+Theorem C17_asz_bound_exact :
+  length (xout (snd (xexec big_cfg [XEnter 0 100 (o_pfa 9 (Some 684)); XLeave 200 (o_pfa 12 None)] xstart))) = 12%nat /\
+  length (xout (snd (xexec big_cfg [XEnter 0 100 (o_pfa 9 (Some 688)); XLeave 200 (o_pfa 12 None)] xstart))) = 11%nat.
+Proof. exact asz_bound_exact. Qed.
+Print Assumptions C17_asz_bound_exact.
+
+(* the return value save_retval writes at the exit (after the diff events are in place: size word, for a string
+   2-byte length + at most ARG_STR_MAX + 1 bytes; scalars <= 16 bytes; a struct is not copied) ends below the
+   event area even when all ten events are stored *)
+Theorem C17_retval_below_events : 4 + 2 + ARG_STR_MAX + 1 <= C17_ARGBUF_SIZE - 2 * ksize table.
+Proof. exact retval_below_events. Qed.
+Print Assumptions C17_retval_below_events.
+
+(* the guard itself, at buffer level *)
 (* save_trigger_read stores an event only where it does not overlap the argument bytes of the frame
    (size word included), and stores it whenever it fits *)
 Theorem C17_event_area_disjoint : forall b dsz, guard_stores b dsz = true -> disjoint_after b dsz = true.
